@@ -11,6 +11,7 @@ import (
 	"fmt"
 	"go/token"
 	"go/types"
+	"os"
 	"regexp"
 	"sort"
 	"strconv"
@@ -166,6 +167,16 @@ type guide struct {
 	oracle func(f *frame, iff *ssa.If) int
 	// onCall lets the rule observe calls on the path (returns true when handled).
 	onCall func(f *frame, x *ssa.Call) bool
+	// forced: branches taken only because the other side cannot reach a success return, although neither the
+	// oracle nor constant evaluation decides them: the success of the guided path assumes them
+	forced []forcedBranch
+}
+
+type forcedBranch struct {
+	Cond   string // condString of the If's condition
+	Succ   int    // successor taken
+	Pos    string
+	Oracle int // what the oracle said (-1 undecided)
 }
 
 // successReach: blocks of fn from which a return with a nil error (or any
@@ -212,8 +223,10 @@ func (f *frame) choose(iff *ssa.If, k *an.Walk) int {
 	s0, s1 := r[iff.Block().Succs[0]], r[iff.Block().Succs[1]]
 	switch {
 	case s0 && !s1:
+		f.noteForced(iff, 0)
 		return 0
 	case s1 && !s0:
+		f.noteForced(iff, 1)
 		return 1
 	}
 	if g.oracle != nil {
@@ -261,6 +274,39 @@ func (f *frame) choose(iff *ssa.If, k *an.Walk) int {
 	}
 	g.fork = iff
 	return -2
+}
+
+// noteForced records a branch that the success-guided walk takes without a
+// decision of its own (only when the rule installed an oracle).
+func (f *frame) noteForced(iff *ssa.If, succ int) {
+	g := f.g
+	if os.Getenv("GLDAPCHECK_ORACLE") == "3" {
+		fmt.Println("   noteForced", f.condString(iff.Cond), succ, g.oracle != nil, f.c.pos(iff))
+	}
+	if g.oracle == nil {
+		return
+	}
+	d := g.oracle(f, iff)
+	if d == succ {
+		return
+	}
+	if d < 0 {
+		if inner, ineg := an.Not(iff.Cond); true {
+			if bo, ok := inner.(*ssa.BinOp); ok {
+				if v, ok := constCompare(f.sym(bo.X), bo.Op, f.sym(bo.Y)); ok {
+					if v != ineg {
+						d = 0
+					} else {
+						d = 1
+					}
+					if d == succ {
+						return
+					}
+				}
+			}
+		}
+	}
+	g.forced = append(g.forced, forcedBranch{Cond: f.condString(iff.Cond), Succ: succ, Pos: f.c.pos(iff), Oracle: d})
 }
 
 type guideDecision struct {
@@ -1463,6 +1509,7 @@ func (f *frame) optionList(v ssa.Value, depth int) ([]optCall, bool) {
 // guidedPaths enumerates the success paths of fn (and of the callees it
 // inlines): forced branches are followed, genuine forks explored both ways.
 type guidedPath struct {
+	Forced  []forcedBranch
 	Res     *interpResult
 	Asserts []string
 	Decided map[*ssa.If]int
@@ -1506,7 +1553,7 @@ func (c *Ctx) guidedPathsF(fn *ssa.Function, env *symEnv, opaque map[string]bool
 			}
 			return
 		}
-		out = append(out, guidedPath{Res: r, Asserts: g.asserts, Decided: decide, Trace: g.trace, State: state})
+		out = append(out, guidedPath{Res: r, Asserts: g.asserts, Decided: decide, Trace: g.trace, State: state, Forced: g.forced})
 	}
 	rec(map[*ssa.If]int{})
 	return out, complete
